@@ -66,8 +66,8 @@ var c06Comps = []string{"", ".", "..", "inside-dir", "inside-file", "link-in", "
 
 type c06Case struct {
 	path string
-	opt  int // 0 -r, 1 -rl, 2 -rc, 3 -rlc
-	kind int // 0 directory module, 1 MapFS module, 2 os.Root.FS() module
+	opt  int  // 0 -r, 1 -rl, 2 -rc, 3 -rlc
+	kind int  // 0 directory module, 1 MapFS module, 2 os.Root.FS() module
 	warm bool // the same Server has served its other modules (complete downloads) before this request
 }
 
